@@ -42,6 +42,7 @@ def spec_scan(ops, impl):
     the replay of a prefix of the written entries that includes every entry written before the last
     fsync that completed before the crash point; the append after recovery is visible."""
     bad = []
+    blk_n, flushed = {}, []
     written, at_op, syncs = [], {}, []
     acked, pending_ack, nops = [], None, 0   # (first op index after an acknowledged Sync/Close, entries written by then)
     for i, op in enumerate(ops):
@@ -55,6 +56,9 @@ def spec_scan(ops, impl):
         if f[0] == "case":
             written, at_op, syncs = [], {}, []
             acked, pending_ack, nops = [], None, 0
+            blk_n, flushed = {}, []     # entries per block id; (op index of a completed payload write, entries on disk by then)
+        elif f[0] == "blk":
+            blk_n[f[1]] = len(f[4].split(";")) if f[4] not in ("", "-") else 0
         elif f[0] == "act" and f[1] == "w":
             written = written + f[2].split(",")
         elif f[0] == "act" and f[1] in ("sync", "close") and rep == "ok ok" and (written or nops):
@@ -66,6 +70,8 @@ def spec_scan(ops, impl):
             at_op[idx] = len(written)
             if f[2] == "sync" and f[8] == "ok":
                 syncs.append(idx)
+            if f[0] == "log" and f[2] == "write" and f[3] == "main" and f[7].startswith("bp:") and f[8] == "ok":
+                flushed.append((idx, (flushed[-1][1] if flushed else 0) + blk_n.get(f[7][3:], 0)))
         elif f[0] == "img":
             ci, cj = int(f[1]), int(f[2])
             r = S.parse_img_reply(rep)
@@ -73,6 +79,11 @@ def spec_scan(ops, impl):
             lo = at_op[done[-1]] if done else 0
             # an acknowledged Sync/Close that completed before the crash point makes its entries durable,
             # fsync or not (a chronicler that never opened a writer has nothing to sync)
+            if ci == cj:
+                # plain process death: every block whose payload write completed is in the file
+                for bidx, cnt in flushed:
+                    if bidx < ci:
+                        lo = max(lo, cnt)
             for aidx, cnt in acked:
                 if aidx <= ci and cj >= 0:
                     lo = max(lo, cnt if any(k < aidx for k in at_op) else lo)
